@@ -116,7 +116,7 @@ def oracle_fn(ctx, item, s):
 def make_ctx(rnd, tier):
     tss = dict(streams.shipped_typesets())
     par = streams.identity_parent()
-    for k in range(6 if tier == "quick" else 60):
+    for k in range(6 if tier == "quick" else 24):
         names = streams.random_closed_subset(rnd, par)
         if len(names) >= 2:
             tss["sub:" + ",".join(names)] = streams.typeset_from_names(names)
@@ -151,7 +151,10 @@ def run(args):
     rnd = random.Random(args.seed)
     info = C.std_coq_phase(run, ["engine"], TARGETS, PROP_FILE)
     broken = bool(run.failed_obligations())
-    items = streams.all_streams(rnd, "quick" if args.tier == "quick" else "thorough", n_fam=None if not broken else 3000)
+    if args.tier == "quick":
+        items = streams.all_streams(rnd, "quick", n_fam=None if not broken else 3000)
+    else:       # sized so that the thorough tier ends within the hour (x ~30 typesets x 3 backends + frames)
+        items = streams.all_streams(rnd, "quick", n_fam=6000, n_mixed=2000) + streams.bx_stream(2, rnd, limit=8000)
     ctx = make_ctx(rnd, args.tier)
     new, seen_known, kn = oracle.run_oracle(run, PROP, items, oracle_fn, ctx)
     nviol = oracle.report(run, PROP, new, seen_known, kn, replay_known=lambda e: replay_entry(e))
